@@ -11,6 +11,7 @@ import Lean.Data.Json
 import Bermuda.Model.Json
 import Bermuda.Model.Codec
 import Bermuda.Spec.C19
+import Bermuda.Spec.C06
 open Lean
 namespace Bermuda.Codec
 
@@ -159,7 +160,8 @@ def handle (j : Json) : Except String Json := do
     let bytes := encode cells
     let self := decode bytes
     let mut fields : List (String × Json) :=
-      [("bytes", hexJson bytes), ("wf", Json.bool (wf cells)),
+      [("bytes", hexJson bytes), ("wf", Json.bool (wf cells)), ("coherent", Json.bool (coherent cells)),
+       ("pyBytesEq", Json.bool (encodePy cells == bytes)),
        ("selfRoundTrip", Json.bool (isOk self cells))]
     match j.getObjVal? "file" with
     | .ok f =>
@@ -174,6 +176,18 @@ def handle (j : Json) : Except String Json := do
                                      ("implEq", Json.bool (t == cells))]
     | none => pure ()
     return Json.mkObj fields
+  | "pycase" =>
+    -- cells whose adjacent metadata may be Python-equal in different representations:
+    -- the writer as it really decides, and the record-count Spec on the implementation's file
+    let cells ← rawCellsFromJson (← j.getObjVal? "cells")
+    let fb ← hexFromJson (← j.getObjVal? "file")
+    let recs : Json := match fileMetaRecords fb with
+      | .ok n => (n : Nat)
+      | .error e => Json.str e.name
+    return Json.mkObj [("bytes", hexJson (encodePy cells)), ("wf", Json.bool (wf cells)),
+                       ("coherent", Json.bool (coherent cells)),
+                       ("changes", (metaChanges none cells : Nat)), ("fileRecords", recs),
+                       ("spec", Json.bool (Spec.C06.recordsOnChange cells fb))]
   | "decode" =>
     let fb ← hexFromJson (← j.getObjVal? "hex")
     let r := decode fb
